@@ -24,7 +24,7 @@ from multiprocessing import cpu_count
 import os
 import random
 import subprocess
-from threading import Thread, RLock
+from threading import Event, Thread, RLock
 from time import time
 from typing import TYPE_CHECKING, Optional
 
@@ -204,6 +204,7 @@ class BenchmarkThread(Thread):
         self._par_scheduler = par_scheduler
         self._id = num
         self.exception = None
+        self.finished = Event()
 
     def run(self):
         try:
@@ -216,6 +217,8 @@ class BenchmarkThread(Thread):
                 scheduler._process_remaining_runs(work)
         except BaseException as exp:
             self.exception = exp
+        finally:
+            self.finished.set()
 
 
 class BenchmarkThreadExceptions(Exception):
@@ -285,7 +288,10 @@ class ParallelScheduler(RunScheduler):
                 self._remaining_work = []
             self._executor.running_processes.kill_all_and_refuse_more()
             for thread in self._worker_threads:
-                thread.join()
+                # join() and is_alive() are not reliable for the thread whose join()
+                # was interrupted by the signal: CPython 3.12 marks it as stopped
+                # although it is still running. The thread's own event is.
+                thread.finished.wait()
             raise
 
         if exceptions:
